@@ -673,9 +673,21 @@ func (e *Engine) VerifyFunc(fn *ssa.Function, c *Contract, prop string) {
 		fr.params[fv.Name()] = v
 		if pt, ok := fv.Type().Underlying().(*types.Pointer); ok {
 			st.assume(not(eq(v.T, "0")))
+			// distinct variables live in distinct cells
+			for _, other := range fn.FreeVars {
+				if other == fv {
+					break
+				}
+				if ov := fr.vals[other]; ov != nil && types.Identical(other.Type(), fv.Type()) {
+					st.assume(not(eq(v.T, ov.T)))
+				}
+			}
 			if _, isStruct := pt.Elem().Underlying().(*types.Struct); !isStruct {
 				if _, isArr := pt.Elem().Underlying().(*types.Array); !isArr {
 					fr.params[fv.Name()] = &Val{T: "addr", Addr: e.addrOf(v), Ty: pt.Elem()}
+					// the value held by the cell is a value of its type
+					// (references it holds are allocated)
+					st.assume(e.rangeSt(st, e.load(st, e.addrOf(v)), pt.Elem()))
 				}
 			}
 		}
